@@ -10,6 +10,9 @@ import json
 from . import core, walk, inputs, cli
 
 
+ZERO_IDS = False        # set while instances built from id-less tokens are compared
+
+
 def content(v):
     """Reduce a parsed literal value to the marker(s) it carries; returns (markers, problems)."""
     if isinstance(v, dict) and "list" in v:
@@ -34,7 +37,7 @@ def content(v):
         ffm = content(ff)[0] if ff else []
         if ffm != ["F" + m[1:]]:
             probs.append("token %s: free-floating content %s" % (m, ffm))
-        if f.get("ID") != "token.T_STRING":
+        if f.get("ID") != (None if ZERO_IDS else "token.T_STRING"):
             probs.append("token %s: ID %s" % (m, f.get("ID")))
         if len(v["fields"]) != len(f):
             probs.append("token %s: duplicate label" % m)
@@ -122,6 +125,22 @@ def run(tier):
             if bad:
                 check.violation({"class": "shared-child-" + bad[0], "kind": o["kind"], "label": bad[1]}, {"instance": o, "detail": bad[2], "parsed_dump": r["lit"]})
     check.cov["again_and_shared_instances"] = len(t2)
+    # tokens without an id (the formatter's and hand-written ones): everything else about them is owed all the same
+    global ZERO_IDS
+    tz = [o for o in base if "tokens" in o["opts"]]
+    t3 = [{"op": "synth", "kind": o["kind"], "slots": o["slots"], "run": "dump", "tokens": True, "positions": "positions" in o["opts"], "zero_ids": True} for o in tz]
+    ZERO_IDS = True
+    try:
+        for o, t, r in zip(tz, t3, wp.run(t3)):
+            check.count()
+            if r.get("panic") or r.get("hang") or r.get("crash") or "dump_err" in r:
+                continue
+            bad = compare(o, r["lit"])
+            if bad:
+                check.violation({"class": "idless-token-" + bad[0], "kind": o["kind"], "label": bad[1]}, {"instance": o, "detail": bad[2], "parsed_dump": r["lit"]})
+    finally:
+        ZERO_IDS = False
+    check.cov["idless_token_instances"] = len(t3)
     check.sample({"direction": "spec->impl", "instance": inst[len(inst) // 3]})
     check.cov["kinds_covered"] = len(kinds)
     check.cov["traces_validated_against_impl"] += len(inst)
